@@ -46,7 +46,7 @@ def larger_cases(seed, ops, tier):
     return cases
 
 
-def run_generic(PID, MODULE, PREFIX, OPS, tier, seed, what):
+def run_generic(PID, MODULE, PREFIX, OPS, tier, seed, what, thorough_flavours=("O1", "O3", "asan")):
     res = Result(PID, tier, seed)
     res.rule = ("%s: every (object size 2^s, transform size 2^d <= 2^s, ncols, nphase in 0..d+2 (and 2^64-1), nblock, caller buffer or "
                 "none, destination = source / other / NULL) with s <= %d, boundary-valued matrices, thread counts 1,2,3,5,16, plus "
@@ -60,7 +60,7 @@ def run_generic(PID, MODULE, PREFIX, OPS, tier, seed, what):
     if err:
         res.broken.append(("model driver build", err))
         drv = NO_MODEL
-    for fl in (["O1"] if tier == "quick" else ["O1", "O3", "asan"]):
+    for fl in (["O1"] if tier == "quick" else list(thorough_flavours)):
         h, err = build_harness(fl)
         if err:
             res.broken.append(("harness build (%s)" % fl, err))
